@@ -354,6 +354,40 @@ def h_pit(N):
     return fn
 
 
+def h_sequence(N):
+    """A probabilistic score does not depend on which other scores were
+    computed before it on the same dataset (the event probabilities handed out
+    by get_p are not a licence to modify the dataset's cache)."""
+    stored = [1.0, 3.0]
+    firsts = ["Ign0", "Spherical", "Bs"]
+    seconds = ["Bs", "MarginalRatio", "Ign0"]
+
+    def fn(S):
+        metric = load.modules["verif.metric"]
+        util = load.modules["verif.util"]
+        ax = load.modules["verif.axis"]
+        data = load.modules["verif.data"]
+        D, raw = mk_data(S, N, thresholds=stored, members=2, nan=False)
+        inp = D._inputs[0]
+        first = firsts[S.choose("first", len(firsts))]
+        second = seconds[S.choose("second", len(seconds))]
+        bt = ["below", "above", "within"][S.choose("bin", 3)]
+        iv = util.get_intervals(bt, S.const(stored))[0]
+        # fresh dataset over copies of the same arrays, built before anything is computed
+        MI = common.input_class()
+        fresh_in = MI("A.txt", inp.times, inp.leadtimes, inp.locations, obs=inp.obs.copy(), fcst=inp.fcst.copy(),
+                      thresholds=inp.thresholds, threshold_scores=inp.threshold_scores.copy(), ensemble=inp.ensemble.copy())
+        Dfresh = data.Data([fresh_in])
+        getattr(metric, first)().compute(D, 0, ax.No(), iv)
+        got = getattr(metric, second)().compute(D, 0, ax.No(), iv)[0]
+        want = getattr(metric, second)().compute(Dfresh, 0, ax.No(), iv)[0]
+        S.observe("second", got)
+        S.prove("score-independent-of-earlier-scores", S.same(got, want), twin=S.same(got, want + 1),
+                detail="%s after %s / %s" % (second, first, bt))
+        S.prove("input-probabilities-unmodified", S.same_arrays(inp.threshold_scores, fresh_in.threshold_scores))
+    return fn
+
+
 def harnesses(tier):
     thorough = tier == "thorough"
     N = 3 if thorough else 2
@@ -363,4 +397,5 @@ def harnesses(tier):
         Harness("quantile", h_quantile(N, 3), "stored / ensemble quantiles, pinball, coverage, spread"),
         Harness("scores", h_scores(N), "bs, ign0, spherical, marginal ratio, threshold mean through Data"),
         Harness("pit", h_pit(N), "PIT mean, deviation, slope, shape"),
+        Harness("sequence", h_sequence(2), "two probabilistic scores in sequence on one dataset vs a fresh dataset"),
     ]
